@@ -50,6 +50,7 @@ type anyCase struct {
 	When    string  `json:"when,omitempty"`  // loss: idle | mid-transfer | during-open
 	Burst   int     `json:"burst,omitempty"` // loss: that many local connections at once after the loss (0 = one)
 	Probe   bool    `json:"probe_recovery,omitempty"`
+	Hold    int     `json:"hold_seconds_after_reconnect,omitempty"` // loss: the connection served by the new session is kept that long, then used again
 	Seed    int64   `json:"seed"`
 	// judged (slow part only): called once when the verdict of the case is in, before anything is torn down.
 	// It blocks until every concurrently running case has its verdict: the teardown of one case (closing a
@@ -809,7 +810,73 @@ func runReuse(rec *vcommon.Rec, c *anyCase) (stalled bool) {
 
 // ---- (C) loss histories ------------------------------------------------------------------------------------
 
+// runComeback: the first listed upstream is down when the client starts, so the session is set up with the second one.
+// Then the first one comes up, and later the session with the second one is lost: the reference model walks the list in
+// its order again, so the next local connection is served by the FIRST upstream.
+func runComeback(rec *vcommon.Rec, c *anyCase) (stalled bool) {
+	rec.Mark(c)
+	s, err := build([]entry{{Kind: c.Kind, Manner: "good"}, {Kind: c.Kind, Manner: "good"}}, "none", c.Secure)
+	if err != nil {
+		rec.Inconclusive("fixture: "+err.Error(), c)
+		return false
+	}
+	defer func() { c.hold(); s.close() }()
+	key := uint64(c.Seed) * 64
+	rec.Seen("loss(kind,how,when,secure)", fmt.Sprintf("%s|%s|%s|%v", c.Kind, c.How, c.When, c.Secure))
+	s.eps[0].StopServer()
+	s.eps[0].CutAll(true)
+	first := s.connect(key+1, 2000, stdWait, false)
+	obs := map[string]interface{}{"first_connection(first upstream down)": first.short()}
+	if first.Outcome != "served" || first.By != "E1" || first.Data != nil {
+		rec.Case(c.key(), first.Outcome != "inconclusive" && first.Outcome != "harness-error")
+		if first.Outcome == "inconclusive" || first.Outcome == "harness-error" || (first.Data != nil && first.Data.Inconclusive) {
+			rec.Inconclusive("first connection: "+first.short(), c)
+		} else {
+			rec.Violation("failover:gives-up-although-a-good-upstream-is-listed:refused>good", c, obs)
+		}
+		return first.Outcome == "stalled"
+	}
+	if err := s.eps[0].RestartServer(); err != nil {
+		rec.Case(c.key(), false)
+		rec.Inconclusive("fixture: server start failed: "+err.Error(), c)
+		return false
+	}
+	// a connection while both are up stays on the session that exists
+	mid := s.connect(key+2, 1000, stdWait, false)
+	obs["connection_while_both_are_up"] = mid.short()
+	s.eps[1].CutAll(c.How == "earlier-upstream-comes-back-rst")
+	time.Sleep(500 * time.Millisecond)
+	next := s.connect(key+3, 2000, stdWait, false)
+	obs["next_local_connection_after_the_loss"] = next.short()
+	obs["client_connect_calls"] = s.cl.Trace.Trials()
+	obs["physical_connections_per_entry"] = s.physical()
+	if next.Outcome == "inconclusive" || next.Outcome == "harness-error" || (next.Data != nil && next.Data.Inconclusive) {
+		rec.Case(c.key(), false)
+		rec.Inconclusive("next connection: "+next.short(), c)
+		return false
+	}
+	rec.Case(c.key(), true)
+	rec.Stat("loss:histories_judged", 1)
+	switch {
+	case next.Outcome == "served" && next.By == "E0" && next.Data == nil:
+		rec.Stat("loss:list_order_restored_after_loss", 1)
+	case next.Outcome == "served" && next.By != "E0":
+		rec.Violation("reconnect:list-order-not-followed-after-loss:served-by-a-later-upstream-although-the-first-is-up", c, obs)
+	case next.Outcome == "served":
+		rec.Violation("reconnect:next-connection-data-fails-after-loss:"+next.Data.Kind, c, obs)
+	default:
+		if next.Outcome == "stalled" {
+			obs["goroutines"] = e2e.Clip(e2e.Stacks(), 40000)
+		}
+		rec.Violation("reconnect:next-connection-fails-after-"+c.How, c, obs)
+	}
+	return next.Outcome == "stalled"
+}
+
 func runLoss(rec *vcommon.Rec, c *anyCase) (stalled bool) {
+	if strings.HasPrefix(c.How, "earlier-upstream-comes-back") {
+		return runComeback(rec, c)
+	}
 	rec.Mark(c)
 	entries := []entry{{Kind: c.Kind, Manner: "good"}}
 	if c.How == "server-gone" {
@@ -968,7 +1035,8 @@ func runLoss(rec *vcommon.Rec, c *anyCase) (stalled bool) {
 	if c.How == "server-gone" {
 		want = "E1"
 	}
-	next := s.connect(key+4, 3000, stdWait, false)
+	next := s.connect(key+4, 3000, stdWait, c.Hold > 0)
+	defer next.done()
 	obs["next_local_connection"] = next.short()
 	obs["expected_server"] = want
 	obs["physical_connections_per_entry_after"] = s.physical()
@@ -986,6 +1054,33 @@ func runLoss(rec *vcommon.Rec, c *anyCase) (stalled bool) {
 		rec.Stat("bytes_verified", 6000)
 		if want == "E0" && ep.Physical() <= physBefore {
 			rec.Violation("harness:served-after-loss-without-a-new-physical-connection", c, obs)
+		}
+		if c.Hold > 0 && next.app != nil && next.tgt != nil {
+			// the new session must outlive whatever is left of the lost one (its timers run out within a minute)
+			physNew := ep.Physical()
+			time.Sleep(time.Duration(c.Hold) * time.Second)
+			f := e2e.Duplex(next.app, next.tgt, &e2e.Stream{Key: key*4 + 21, Len: 2000}, &e2e.Stream{Key: key*4 + 22, Len: 2000}, "c2t", "t2c", nil)
+			again := s.connect(key+5, 1000, stdWait, false)
+			obs["held_connection_after_the_hold"] = "fine"
+			if f != nil {
+				obs["held_connection_after_the_hold"] = f.Kind
+			}
+			obs["new_connection_after_the_hold"] = again.short()
+			obs["physical_connections_after_the_hold"] = ep.Physical()
+			switch {
+			case f != nil && f.Inconclusive:
+				rec.Inconclusive("hold: "+f.Kind, c)
+			case f != nil:
+				rec.Violation(fmt.Sprintf("reconnect:new-session-does-not-survive-%ds:held-connection:%s", c.Hold, f.Kind), c, obs)
+			case again.Outcome == "inconclusive" || again.Outcome == "harness-error":
+				rec.Inconclusive("hold: "+again.short(), c)
+			case again.Outcome != "served" || again.By != want || again.Data != nil:
+				rec.Violation(fmt.Sprintf("reconnect:new-session-does-not-survive-%ds:new-connection-fails", c.Hold), c, obs)
+			case ep.Physical() != physNew:
+				rec.Violation(fmt.Sprintf("reconnect:new-session-does-not-survive-%ds:another-physical-session-was-needed", c.Hold), c, obs)
+			default:
+				rec.Stat("loss:new_session_alive_after_hold", 1)
+			}
 		}
 		return false
 	}
@@ -1192,6 +1287,9 @@ func lossCases(rec *vcommon.Rec) (fast, slow []*anyCase) {
 			fast = append(fast, mk(k, "server-gone", "", sec))
 		}
 		fast = append(fast, mk("tcp", "server-restart-attempt-while-down", "", sec), mk("ws", "server-restart-attempt-while-down", "", sec))
+		for _, k := range []string{"tcp", "tcp+tls", "ws"} {
+			fast = append(fast, mk(k, "earlier-upstream-comes-back", "", sec), mk(k, "earlier-upstream-comes-back-rst", "", sec))
+		}
 	}
 	// a burst of local connections after the cut; the interleaving is a race, so every history runs several times
 	for rep := 0; rep < rec.Pick(3, 8); rep++ {
@@ -1209,6 +1307,15 @@ func lossCases(rec *vcommon.Rec) (fast, slow []*anyCase) {
 			}
 		}
 	}
+	// the new session must still be there a good minute later (the lost session's own timers have run out by then)
+	for _, k := range []string{"tcp", "tcp+tls", "ws"} {
+		h := mk(k, "cut-fin", "idle", false)
+		h.Hold = 70
+		slow = append(slow, h)
+	}
+	h := mk("tcp", "cut-rst", "mid-transfer", false)
+	h.Hold = 70
+	slow = append(slow, h)
 	// a carrier without any close signal (KCP), with and without the pre-shared key: the loss is only found by the keep-alive
 	slow = append(slow, mk("udp", "black-hole", "", false), mk("udp+secret", "black-hole", "", false))
 	// the DNS tunnel: the server forgets the session (restart), or the path swallows everything
